@@ -132,7 +132,7 @@ def reference_dtype(nm, in_dtype):
 
 def declared_vs_reference(ck, prog, ga, where, nm, kw, given):
     from ..symeval import Evaluator, Frame
-    for in_dt in ("float32", "float64", "complex64", "complex128"):
+    for in_dt in ("float32", "float64", "complex64", "complex128", "int8", "uint8", "int16", "int32", "int64", "bool_", "float16"):
         ref = reference_dtype(nm, in_dt)
         if ref is None:
             continue
